@@ -17,6 +17,7 @@ import (
 
 	"github.com/google/badwolf/storage"
 	"github.com/google/badwolf/triple"
+	"github.com/google/badwolf/triple/literal"
 	"github.com/google/badwolf/triple/predicate"
 )
 
@@ -76,6 +77,15 @@ func c04Sequence(rng *rand.Rand, n int) []*bq.Stmt {
 	var seq []*bq.Stmt
 	seq = append(seq, &bq.Stmt{Kind: "create", Graphs: []string{"?g1", "?g2"}})
 	pool := gen.AllTriples(gen.DenseDataSet(rng, 1, 16, true))
+	if rng.Intn(2) == 0 {
+		// listed triples that differ only in white space at the edges of a text,
+		// in letter case, or in the spelling of a number are different triples
+		s, p := gen.VNodes[rng.Intn(3)], gen.MustImm("p")
+		for _, txt := range []string{"abc", " abc", "abc ", "ABC", "a\tbc", ""} {
+			pool = append(pool, gen.MustTriple(s, p, triple.NewLiteralObject(gen.MustLit(literal.Text, txt))))
+		}
+		rng.Shuffle(len(pool), func(a, b int) { pool[a], pool[b] = pool[b], pool[a] })
+	}
 	seq = append(seq, &bq.Stmt{Kind: "insert", Graphs: []string{"?g1"}, Triples: pool[:len(pool)/2]})
 	seq = append(seq, &bq.Stmt{Kind: "insert", Graphs: []string{"?g2", "?g1"}, Triples: pool[len(pool)/3:]})
 	// every sequence gets a reifying CONSTRUCT over many rows, a DECONSTRUCT that
